@@ -283,3 +283,87 @@ def inferOrAllL (sets : List (List String)) : Nat → List PTree → List PTree
 end
 
 end O2P.Gate
+
+/-! ### the rest of the post-processing (`filter_defunct_or_gates`, `process_missing_and_gates`,
+`remove_defunct_sequence_logic`) and the whole pipeline on a raw miner tree -/
+namespace O2P.Gate
+
+def PTree.opOf : PTree → Option POp
+  | .node op _ => some op
+  | _ => none
+
+def PTree.children : PTree → List PTree
+  | .node _ cs => cs
+  | _ => []
+
+mutual
+def PTree.beq : PTree → PTree → Bool
+  | .leaf a, .leaf b => a == b
+  | .tau, .tau => true
+  | .node o1 c1, .node o2 c2 => o1 == o2 && PTree.beqL c1 c2
+  | _, _ => false
+def PTree.beqL : List PTree → List PTree → Bool
+  | [], [] => true
+  | a :: as, b :: bs => a.beq b && PTree.beqL as bs
+  | _, _ => false
+end
+
+/-- `list.remove(x)`: drop the first element equal to `x` -/
+def removeFirst (x : PTree) : List PTree → List PTree
+  | [] => []
+  | y :: ys => if y.beq x then ys else y :: removeFirst x ys
+
+mutual
+/-- `filter_defunct_or_gates`: the children are visited by position while an OR child of an OR node is replaced, in
+that very list, by its own children appended at the end (so the element after a removed one is skipped and the
+appended ones are visited later) -/
+def filterDefunct : Nat → PTree → PTree
+  | 0, t => t
+  | fuel + 1, .node op cs => .node op (filterLoop fuel op 0 cs)
+  | _, t => t
+def filterLoop : Nat → POp → Nat → List PTree → List PTree
+  | 0, _, _, cs => cs
+  | fuel + 1, pop, i, cs =>
+    match cs[i]? with
+    | none => cs
+    | some c =>
+      let c' := filterDefunct fuel c
+      let cs1 := cs.set i c'
+      if c'.opOf == some .or && pop == .or then
+        filterLoop fuel pop (i + 1) (removeFirst c' cs1 ++ c'.children)
+      else filterLoop fuel pop (i + 1) cs1
+end
+
+def leafLabel? : PTree → Option String
+  | .leaf a => some a
+  | _ => none
+
+mutual
+/-- `process_missing_and_gates` under every outcome of the cover step -/
+def missingAnd : Nat → List (List String) → PTree → List PTree
+  | 0, _, t => [t]
+  | fuel + 1, sets, .node op cs =>
+    let rebuilt : List (List PTree) :=
+      if op == .or then
+        match cs.mapM leafLabel? with
+        | some uni =>
+          let rec_ := (sets.filter fun s => subsetS s uni)
+          (weightedCover rec_ uni).map fun r => match r with
+            | some cover => cover.map fun p => match p with
+              | [a] => PTree.leaf a
+              | _ => PTree.node .and (p.map PTree.leaf)
+            | none => cs
+        | none => [cs]
+      else [cs]
+    rebuilt.flatMap fun cs' => (missingAndL fuel sets cs').map fun cs'' => PTree.node op cs''
+  | _, _, t => [t]
+def missingAndL : Nat → List (List String) → List PTree → List (List PTree)
+  | _, _, [] => [[]]
+  | fuel, sets, c :: cs => (missingAnd fuel sets c).flatMap fun c' => (missingAndL fuel sets cs).map fun cs' => c' :: cs'
+end
+
+/-- `reduce_process_tree_to_preferred_logic_gates` on the raw tree below the start event: every outcome -/
+def postProcess (sets : List (List String)) (raw : PTree) : List PTree :=
+  missingAnd 50 sets (filterDefunct 200 (inferOrAll sets 50 raw))
+
+end O2P.Gate
